@@ -24,7 +24,7 @@ claimed = {
    'For every reachable tree state: Min, Max, Ceil(p) for every universe key and absent probe, then every sequence of Forward/Backward steps until stepping off an end, Get compared with the position in the sorted key list; SeekIter(p) for every probe with early stop at every position. Branch factors 2,3,4,16, user keys with adversarial layers, empty and emptied trees.',
    'Finite universes; behaviour after stepping off an end is not judged (not specified).', 'DESIGN.md C10'),
  'C15': ('W', 'model_checking', 'exhaustive enumeration of all ordered pairs of persisted versions on cache-less recording stores; oracle = distinct Load names vs 2*D+2',
-   'For all ordered pairs of all versions of the universe, the distinct names passed to Persist.Load during DiffIter and DiffLinks are counted and compared with 2*D+2 (D from the reference walker); identical versions must load nothing. Also: the new side taken from a writer with a NodeCache, StartDiff/NextEntry, and a tall-tree family (bf 2, 4 200 keys; every high-layer key deleted x a second change on a grid and at every other high-layer key) where the bound is tight; the base is also compared with each of those versions (pass-through node on one side only); every pair also with the old version opened through a mirror store handle; and a wide-node family (2^k versions differing only in the separators of one node over common leaves), which exposes a genuine defect of the library kept as a known finding: pairs that exceed the bound are classified - only roots of common subtrees directly below differing nodes read (known) versus anything else (violation).',
+   'For all ordered pairs of all versions of the universe, the distinct names passed to Persist.Load during DiffIter and DiffLinks are counted and compared with 2*D+2 (D from the reference walker); identical versions must load nothing. Also: the new side taken from a writer with a NodeCache, StartDiff/NextEntry, and a tall-tree family (bf 2, 4 200 keys; every high-layer key deleted x a second change on a grid and at every other high-layer key) where the bound is tight; the base is also compared with each of those versions (pass-through node on one side only); every pair also with the old version opened through a mirror store handle; and a wide-node family (2^k versions differing only in the separators of one node over common leaves), also with tall common subtrees below the moving separators; this family exposed a genuine defect of the library (repaired in /repo acebcee); pairs that exceed the bound are classified in the signature - only roots of common subtrees directly below differing nodes read, versus anything else.',
    'Finite universes; thorough adds larger seeded trees with single/two-key modifications.', 'DESIGN.md C15'),
  'C03': ('F+S', 'model_checking', 'engine F (every failing subset of the writes, by node name, with retries) over every pre-state of the closure, and engine S: stateless DFS over all interleavings of MakeRoot goroutines up to a preemption bound on an instrumented copy of package mast under a cooperative scheduler',
    'Part A: for every reachable tree state that has something to write, every non-empty subset of its Store calls fails (<=4 writes; singles and pairs above), followed by a clean retry, a retry failing again, and a third attempt: an error is reported iff a write failed, the tree still answers Get/Size and accepts an insert, a later success implies every reachable node is in the store under its own name, and a cache shared with a second store never causes a write to be skipped. Part B: one representative tree per number of dirty nodes and height; all schedules of caller, dispatcher and workers with <=2 preemptions (<=3 writes) / <=1 / 0, each with no fault and with each single write failing; at the instant MakeRoot returns nil every reachable node must already be in the store; no deadlock, no panic. Part C (engine Q): the unmodified package inside a go1.26 testing/synctest bubble, every completion order of the parked Store calls x each single failing write (<=4 dirty nodes), as a cross-check of the instrumented runs. Also: a 63-dirty-node tree (the 40-slot gate saturates) with every single write failing, two stores sharing one cache (distinct prefixes, prefixes differing only by slashes, and the in-memory stores of the library itself). Part D (engine W): failing MakeRoot calls - a class of Store calls chosen by node name, or the i-th Marshal call - are transitions of the single-tree alphabet, explored to closure (cache-less) / depth 6 (cached): a failed call changes nothing the tree answers, an error is reported iff a write failed, and every later successful root is complete.',
